@@ -7,7 +7,7 @@ from typing import Any, Union
 from warnings import warn
 
 from numpy import floating, integer, isfinite, isnan, nan, select
-from pandas import DataFrame, Series, isna, notna, unique
+from pandas import CategoricalDtype, DataFrame, Series, isna, notna, unique
 from sklearn.base import BaseEstimator, TransformerMixin
 
 from .grouped_list import GroupedList
@@ -312,6 +312,16 @@ class BaseDiscretizer(BaseEstimator, TransformerMixin):
                 f" - [Discretizer] Requested discretization of {str(missing_columns)} but those"
                 " columns are missing from provided X. Please check your inputs! "
             )
+
+            # pandas' categorical columns refuse new values (str_nan, str_default, labels):
+            # their values are used as plain objects
+            categorical_columns = [
+                feature
+                for feature in self.features
+                if isinstance(x_copy[feature].dtype, CategoricalDtype)
+            ]
+            if len(categorical_columns) > 0:
+                x_copy = x_copy.astype({feature: object for feature in categorical_columns})
 
             if y is not None:
                 # checking for y's type
